@@ -1,7 +1,10 @@
 """C19 -- BigInt holds the exact mathematical integer after every operation that fits.
 
 Proof: coq/Properties_C19.v (model coq/BigIntModel.v = Include/BigInt.hpp after the
-       repairs D6-D10, D31; theorems by induction over the word list / the history).
+       repairs D6-D10, D31).  For every word width, word count and history: every operation
+       of the model keeps the invariant, holds the exact integer and returns the exact
+       remainder / bit index / predicate (induction over the word list and the history);
+       the 128/64 division helper is proved for every half width (Knuth D, one-digit estimate).
 Tie:   differential run of cpp/drv_bigint.cpp (real BigInt<uint8|16|32|64, 64..2048> and the
        DoubleSize helpers, ASan+UBSan) against the extracted model, judged by the extracted
        exact-integer oracle (BigIntModel.oracle)."""
@@ -367,8 +370,7 @@ TRUSTED = vlib.TRUSTED_BASE_COMMON + [
 def check(tier):
     rep = vlib.Report(PROP, tier, "proof")
     rng = random.Random(rep.seed)
-    extra = ["BigIntSweep.vo"] if (tier == "thorough" and os.path.exists(os.path.join(vlib.COQ, "BigIntSweep.v"))) else []
-    st = vlib.proof_stage(rep, "Properties_C19.v", [COMP], tables=(), extra_targets=extra)
+    st = vlib.proof_stage(rep, "Properties_C19.v", [COMP], tables=(), clean=False)
     theorems = st["theorems"]
     proof_ok = st["ok"]
 
@@ -472,6 +474,10 @@ def check(tier):
                 "value-changing operations (helpers: an operand above a half word); distinct = distinct case strings" % json.dumps(COMBOS),
         "samples": [all_cases[0][:400], all_cases[len(all_cases) // 3][:400], all_cases[-1][:400]],
         "input_distribution": dist_total,
+        "proved_scope": "c19_step / c19_history / c19_model_passes_oracle cover every constructor of BigIntModel.op (c19_every_operation_covered): = += -= |= &= and "
+                        "copy-assignment with operand types of at most one word or at least two words, Add/Subtract at a word index, *=, Divide, <<=, >>=, Clear, "
+                        "FindFirstBit, FindLastBit, the comparison family / IsZero / NotZero / IsBig, the conversion operator; DoubleSize Multiply and Divide for every width "
+                        "(the 64-bit variants generically in the half width); nothing is left to the correspondence run alone except the tie model <-> C++ itself",
         "history_steps": steps,
         "traces_validated_against_impl": len(all_cases),
         "oracle_failures": n_oracle_fail,
